@@ -16,7 +16,7 @@ void harness(void)
 	sqfs_u64 size0 = verif_nd_u64("fsize");
 	int ret;
 
-	VERIF_ASSUME(size0 >= C14_SUPER_SZ);
+	VERIF_ASSUME(size0 >= C14_SUPER_SZ && size0 <= C14_FILE_MAX);
 	c14_file_init(size0);
 	blk.next = NULL;
 	blk.data[0] = verif_nd_u8("hdr0");
